@@ -690,6 +690,158 @@ def run_time_track(run, case):
 
 
 # ---------------------------------------------------------------------------
+# F. linspace_tie: Model/TimeTrackF.v (the binary64 operations of np.linspace in NumPy's order,
+# the caller's stop, the truncating cast of the absolute form) against NumPy, bit for bit
+
+IMPORTS_TT = ("From Coq Require Import ZArith List PrimFloat.\nFrom NpTdms Require Import Model.Timestamp "
+              "Model.TimeTrackF.\nImport ListNotations.\nOpen Scope Z_scope.\n")
+INT64_MIN = -2 ** 63
+
+
+def cf(x):
+    """python float -> Coq PrimFloat term (bit-exact; NaNs identified)"""
+    x = float(x)
+    if x != x:
+        return "nan"
+    if x in (float("inf"), float("-inf")):
+        return "infinity" if x > 0 else "neg_infinity"
+    return "(%s)%%float" % x.hex()
+
+
+def linspace_cases(run, rng):
+    """(offset, increment, len, [indices])"""
+    tiny = [5e-324, 1e-320, 3e-310, 2.2250738585072014e-308]
+    huge = [1e300, 8.9e307, 1.7976931348623157e308]
+    out = []
+
+    def add(o, c, n):
+        idx = sorted(set(i for i in (0, 1, n // 3, n // 2, n - 2, n - 1, rng.randrange(n)) if 0 <= i < n))
+        out.append((float(o), float(c), n, idx))
+    lengths = [1, 2, 3, 257, 10, 1000]
+    for n in lengths:
+        for c in (0.25, -0.25, 1e-6, -1e-3, 0.0, -0.0, 1.0 / 3, 1e9):
+            for o in (0.0, -0.0, 1.5, -7.25e3):
+                add(o, c, n)
+        for t in tiny:          # step underflows to 0 or is denormal: the gh-5437 branch
+            add(0.0, t, n)
+            add(-t, t, n)
+            add(t * 3, -t, n)
+            add(rng.random() * 1e-300, rng.random() * t * 4, n)
+        for h in huge:          # products and sums that overflow
+            add(0.0, h, n)
+            add(h, -h / max(n - 1, 1), n)
+            add(-h, h, n)
+            add(rng.random() * h, (rng.random() - 0.5) * h / n, n)
+    for _ in range(60):
+        n = rng.choice(lengths + [rng.randrange(1, 5000)])
+        mag = rng.choice([1e-6, 1e-3, 1.0, 10.0, 1e10])
+        add(rng.choice([0.0, rng.uniform(-100, 100), rng.uniform(-1e4, 1e4)]),
+            rng.choice([1, 1, -1]) * rng.random() * mag, n)
+    add(0.0, 1e-6, 10 ** 6)
+    add(1.5, 1e-6, 10 ** 6)
+    add(-3.0e5, 1.0 / 3, 2 ** 20 + 1)
+    return out
+
+
+def linspace_tie(run, rng, only=None):
+    cases, meta = [], []
+    for (o, c, n, idx) in (only if only is not None else linspace_cases(run, rng)):
+        o64, c64 = np.float64(o), np.float64(c)
+        stop = o64 + (n - 1) * c64                       # the expression of tdms.py
+        rel = np.linspace(o64, stop, n)
+        if n <= 1000:                                    # the same through the public API
+            buf = io.BytesIO()
+            with TdmsWriter(buf) as w:
+                w.write_segment([ChannelObject("g", "c", np.zeros(n, dtype=np.int8),
+                                               {"wf_increment": c, "wf_start_offset": o})])
+            api = TdmsFile.read(io.BytesIO(buf.getvalue()))["g"]["c"].time_track()
+            run.cov["evaluations"] += 1
+            if len(api) != n or api.tobytes() != rel.tobytes():
+                report(run, "time-track", "time_track() differs from np.linspace(offset, offset + (len-1)*increment, "
+                       "len) for offset %r increment %r len %d" % (o, c, n),
+                       {"op": "linspace_tie", "offset": o.hex(), "increment": c.hex(), "n": n},
+                       expected=[float(v).hex() for v in rel[:4]], actual=[float(v).hex() for v in api[:4]])
+        ks = {}
+        for acc in RES:
+            ks[acc] = (rel * float(STEPS[acc])).astype("timedelta64[%s]" % acc).astype("int64")
+        for i in idx:
+            kk = [int(ks[acc][i]) for acc in RES]
+            cases.append("(%s, %s, %d, %d, %s, %s, [%s])" % (
+                cf(o), cf(c), n, i, cf(stop), cf(rel[i]),
+                "; ".join("None" if k == INT64_MIN else "Some (%d)" % k for k in kk)))
+            meta.append({"op": "linspace_tie", "offset": o.hex(), "increment": c.hex(), "n": n, "i": i,
+                         "stop": float(stop).hex(), "linspace": float(rel[i]).hex(), "casts": kk})
+            run.count("linspace_tie_len_%s" % (n if n <= 3 else "n"))
+            if rel[i] != rel[i] or abs(float(rel[i])) == float("inf"):
+                run.count("linspace_tie_nonfinite")
+    bad, errors = H.run_sharded(run.pid, IMPORTS_TT, "float * float * Z * Z * float * float * list (option Z)",
+                                "check_linspace", cases, shard=400, tag="linspace_tie")
+    run.corr_errors(errors)
+    run.cov["traces_validated_against_impl"] += len(cases) - len(bad)
+    run.count("linspace_tie_model_compared", len(cases))
+    for j in bad[:3]:
+        m = meta[j]
+        fo, fc = cf(float.fromhex(m["offset"])), cf(float.fromhex(m["increment"]))
+        rc, out = H.coq_print_terms(run.pid, IMPORTS_TT,
+                                    ["time_track_stop %s %s %d" % (fo, fc, m["n"]),
+                                     "time_track_f %s %s %d %d" % (fo, fc, m["n"], m["i"]),
+                                     "map (fun r => trunc_f (time_track_f %s %s %d %d * uc_f r)%%float) all_res"
+                                     % (fo, fc, m["n"], m["i"])],
+                                    tag="show_ls%d" % j)
+        report(run, "corr-linspace", "Model.TimeTrackF and NumPy disagree on linspace point %d of %d "
+               "(offset %s, increment %s)" % (m["i"], m["n"], m["offset"], m["increment"]), m,
+               kind="correspondence-broken", theorem="Model.TimeTrackF.time_track_f / trunc_f vs np.linspace / astype",
+               expected=m["linspace"], actual=m["casts"], model=out[-1500:], no_input=True)
+    if bad:
+        run.notes.append("linspace_tie: model/NumPy disagree on %d of %d points" % (len(bad), len(cases)))
+    if only is not None:
+        return
+    # np.linspace on arbitrary endpoints (the gh-5437 branch with a non-zero delta needs endpoints that
+    # time_track's own stop never produces)
+    ep_cases, ep_meta = [], []
+    den = 5e-324
+    eps_list = []
+    for n in (2, 3, 10, 257, 1000, 4097):
+        for k in (1, 2, 3, (n - 1) // 2, n - 2, n - 1, n, 3 * n, 100):
+            if k > 0:
+                eps_list += [(0.0, k * den, n), (k * den, 0.0, n), (-k * den, k * den, n),
+                             (rng.randrange(1, 2 ** 20) * den, (rng.randrange(1, 2 ** 20) + k) * den, n)]
+        for _ in range(6):
+            a = rng.uniform(-1, 1) * rng.choice([1e-300, 1e-3, 1.0, 1e6, 1e300])
+            b = rng.uniform(-1, 1) * rng.choice([1e-300, 1e-3, 1.0, 1e6, 1e300])
+            eps_list.append((a, b, n))
+        eps_list += [(1.0, 1.0, n), (-0.0, 0.0, n), (0.0, -0.0, n), (1.7e308, -1.7e308, n), (float("inf"), 0.0, n),
+                     (0.0, float("nan"), n)]
+    for (a, b, n) in eps_list:
+        y = np.linspace(np.float64(a), np.float64(b), n)
+        for i in sorted(set([0, 1, n // 2, n - 2, n - 1, rng.randrange(n)])):
+            if 0 <= i < n:
+                ep_cases.append("(%s, %s, %d, %d, %s)" % (cf(a), cf(b), n, i, cf(y[i])))
+                ep_meta.append({"op": "linspace_ep", "start": float(a).hex(), "stop": float(b).hex(), "n": n, "i": i,
+                                "linspace": float(y[i]).hex()})
+        d = np.float64(b) - np.float64(a)
+        if d != 0 and d / (n - 1) == 0:
+            run.count("linspace_ep_step_zero_delta_nonzero")
+    bad, errors = H.run_sharded(run.pid, IMPORTS_TT, "float * float * Z * Z * float", "check_linspace_ep", ep_cases,
+                                shard=400, tag="linspace_ep")
+    run.corr_errors(errors)
+    run.cov["traces_validated_against_impl"] += len(ep_cases) - len(bad)
+    run.count("linspace_ep_model_compared", len(ep_cases))
+    for j in bad[:3]:
+        m = ep_meta[j]
+        rc, out = H.coq_print_terms(run.pid, IMPORTS_TT,
+                                    ["linspace_f %s %s %d %d" % (cf(float.fromhex(m["start"])),
+                                                                 cf(float.fromhex(m["stop"])), m["n"], m["i"])],
+                                    tag="show_ep%d" % j)
+        report(run, "corr-linspace", "Model.TimeTrackF.linspace_f and np.linspace(%s, %s, %d)[%d] disagree"
+               % (m["start"], m["stop"], m["n"], m["i"]), m, kind="correspondence-broken",
+               theorem="Model.TimeTrackF.linspace_f vs np.linspace", expected=m["linspace"], model=out[-800:],
+               no_input=True)
+    if bad:
+        run.notes.append("linspace_ep: model/NumPy disagree on %d of %d points" % (len(bad), len(ep_cases)))
+
+
+# ---------------------------------------------------------------------------
 
 def replay(run, case):
     op = case.get("op")
@@ -704,6 +856,9 @@ def replay(run, case):
         run_time_track(run, case)
     elif op == "e2e":
         run_e2e(run, case)
+    elif op == "linspace_tie":
+        linspace_tie(run, None, only=[(float.fromhex(case["offset"]), float.fromhex(case["increment"]), int(case["n"]),
+                                       [int(case["i"])] if "i" in case else [0, int(case["n"]) - 1])])
     else:
         print("replay: nothing to re-run for kind", op)
 
@@ -765,6 +920,9 @@ def main():
             report(run, "time-track", "time_track raised %r" % (e,), case, actual=repr(e))
 
     tick(run, "time_track")
+    # F. the binary64 model of linspace / time_track against NumPy
+    linspace_tie(run, random.Random(run.seed ^ 0x715))
+    tick(run, "linspace_tie")
     run.cov["exhaustive"] = bool(run.thorough)
     run.cov["rule"] = (
         "round trip: %s microsecond values of the sub-second part, each with a second drawn from a pool "
@@ -772,7 +930,10 @@ def main():
         "scalar path (TimeStamp.read) and array path (from_bytes) on every value; conversions: fractions adjacent "
         "(+-2, and +-2 around the 2^12 tolerance) to k*2^64/10^r for all k (r=3) / sampled k (r=6,9), 0, 2^64-1, "
         "powers of two, random; raw records: random and special 16-byte strings in both byte orders; end-to-end "
-        "files through TdmsWriter / TdmsFile / defragment; time_track on lengths 0,1,2,3,10,257 and random. "
+        "files through TdmsWriter / TdmsFile / defragment; time_track on lengths 0,1,2,3,10,257 and random; "
+        "linspace_tie: lengths 1,2,3,10,257,1000, random < 5000, 10^6, 2^20+1 x increments +-0.25, 1e-6, 0, -0, 1/3, 1e9, "
+        "denormal (step == 0 branch) and overflowing ones x offsets 0, -0, 1.5, -7250, indices 0, 1, n/3, n/2, n-2, n-1, "
+        "random. "
         "Non-trivial = a case on which every oracle held (round trip on both paths / a conversion checked at one "
         "resolution / a raw record re-written identically / a file / a time track)."
         % ("all 10^6" if run.thorough else "10^5 stratified (one per decade)"))
@@ -786,8 +947,12 @@ def main():
         "datetime64 / timedelta64 arithmetic of NumPy is modelled as integer arithmetic on the int64 counts "
         "(no wrap-around inside the stated ranges); uint64 array arithmetic as arithmetic modulo 2^64",
         "struct.pack/unpack '<Qq' / '>qQ' modelled by Base/Bytes.v u_enc/s_enc",
-        "time_track is proved over the reals; the float linspace is checked against offset + i*increment within "
-        "8 ulp of the largest magnitude, the absolute form exactly against start + trunc(relative * unit)",
+        "time_track: over the reals in Props/C12.v; the binary64 computation (Model/TimeTrackF.v: NumPy's linspace "
+        "operations in order, the caller's stop, the truncating cast) is bounded by theorem in Props/C12_round.v "
+        "(|point - (offset + i*increment)| <= (1+3u)(u(2|offset| + 6(n-1)|increment|) + (i+6)eta), u = 2^-53, for finite "
+        "float64 properties, 2 <= n <= 2^53, |offset| + (n-1)|increment| <= 2^1023) and compared bit for bit with "
+        "np.linspace / time_track() / astype(timedelta64) inside Coq (linspace_tie); the implementation-side oracle "
+        "keeps its 8-ulp tolerance; integer-typed wf_* properties are outside the model",
         "'ps' resolution keeps the float path and is not claimed",
         "integer theorems are about the code with repair D5 applied (dev/patches/D5.patch); on a tree without it "
         "the round-trip oracle fails (key us-roundtrip) and Model.Timestamp.AsIs predicts the failure"]
